@@ -328,6 +328,12 @@ def one_program(ctx, prog, rng, workdir, tag, has_literals, depth=0, fixed=None)
         datasets.append(d)
     optsets = option_sets(rng, n, L, D, ctx.pick(6, 10))
     endo = list(Model.ENDOGENOUS)
+    if endo and rng.random() < 0.4:
+        # a third dataset whose starting guesses for the endogenous variables are huge (but finite) numbers of one sign
+        d = {k: v.copy() for k, v in datasets[0].items()}
+        for nm in endo:
+            d[nm] = np.full(n, rng.choice([1.5e308, -1.5e308, 1.0e308]))
+        datasets.append(d)
     for o in optsets:
         if len(endo) > 1 and o['entry'] in ('solve', 'solve_t') and rng.random() < 0.3:
             o['check'] = rng.sample(endo, rng.randint(1, len(endo) - 1))
@@ -452,6 +458,7 @@ def run_shard(ctx):
             ctx.seen('outcomes', str(r))
             ctx.count('programs')
         exact_tolerance(ctx, rng, workdir)
+        huge_guesses(ctx, rng, workdir)
         # hand-written corner programs
         V, N, B, E, P, C = gen.Var, gen.Num, gen.Bin, gen.Eq, gen.Program, gen.Call
         corner = [
@@ -483,6 +490,22 @@ def exact_tolerance(ctx, rng, workdir):
                  'options': dict(entry='solve_t', t=1, min_iter=0, max_iter=it, tol=tol, failures='ignore', errors='raise', offset=0)}
         ctx.evaluation((script, d, tol, it), nontrivial=True)
         one_program(ctx, prog, rng, workdir, f'tol{ctx.shard}', has_literals=False, fixed=fixed)
+
+
+def huge_guesses(ctx, rng, workdir):
+    """Starting guesses that are large but finite (each of them is; their sum is not): nothing is non-finite beforehand, so the
+    period is solved - by either back-end, through every entry point, with and without an offset."""
+    V, B, E, P = gen.Var, gen.Bin, gen.Eq, gen.Program
+    prog = P([E(V('Y'), B('+', V('X'), V('d', 'param'))), E(V('Z'), B('*', V('X'), V('d', 'param'))), E(V('W'), B('-', V('X'), V('Y')))])
+    script = gen.render_program(prog)
+    H = 1.5e308
+    for k, (y, z, w) in enumerate(((H, H, H), (-H, -H, 1.0), (H, -H, H), (H, 1.0, 2.0), (1.7e308, 1.0e307, 2.0))):
+        for entry, offset in (('solve_t', 0), ('solve_t', -1), ('solve_t', 1), ('solve', 0)):
+            fixed = {'exact': True, 'data': {'Y': [y] * 3, 'Z': [z] * 3, 'W': [w] * 3, 'X': [1.0, 2.0, 4.0], 'd': [0.5] * 3},
+                     'options': dict(entry=entry, t=rng.choice([1, -2]), min_iter=0, max_iter=4, tol=0.5, failures='ignore', errors='raise', offset=offset)}
+            ctx.evaluation((script, k, entry, offset), nontrivial=True)
+            ctx.count('huge_finite_starting_guesses')
+            one_program(ctx, prog, rng, workdir, f'huge{ctx.shard}', has_literals=False, fixed=fixed)
 
 
 def replay(ctx, case):
